@@ -900,7 +900,7 @@ func xmpPDF(ver string, hasInfo bool, infoKw []string, infoSep string, xmpKw []s
 	tr := ""
 	it := strings.Join(infoKw, infoSep) // ASCII without ( ) \
 	if hasInfo {
-		e := "/Title (t)"
+		e := "/Producer (gen)" // an entry that is not a property and not Title/Author/... (the model starts with no Info entries)
 		if infoKw != nil {
 			e += " /Keywords (" + it + ")"
 		}
